@@ -533,6 +533,11 @@ def hostile_operands(ctx):
                                   % (r['assertion'], r['kind'], r['shape'], r['raised'])})
         elif r['fired'] != r['listed'] or (not r['fired']) != r['ignored']:
             ctx.violation('truth-vs-report:%s' % r['assertion'], {'case': r, 'why': 'bool(assertion) and its place in the report differ'})
+        elif r['kind'] == 'equal-but-no-repr' and r['shape'] == 'alone' and r['assertion'] in ('assert_equal', 'assert_not_equal') and \
+                r['fired'] != (r['assertion'] == 'assert_not_equal'):
+            # the object equals everything (its __eq__ says so); that it cannot be printed does not change the relation
+            ctx.violation('unprintable-operand-changes-the-verdict', {'case': r, 'why': '%s(obj, 5) with an obj whose __eq__ returns True and whose '
+                                                                                         '__repr__ raises: fired=%s status=%s' % (r['assertion'], r['fired'], r['status'])})
 
 
 # ---------------------------------------------------------------- equality_test: Coq model vs the implementation
